@@ -736,7 +736,7 @@ def agree(case, i, ia, ma):
             if not na.strip():
                 return ja.strip() == jb.strip()  # no named parameter: an empty Jacobian on both sides
             if i == 0 and len(parts) == 3 and parts[1] != parts[2]:
-                # a data set maps two parameters to one global (F9): the model gives the code's buffered update and
+                # a data set maps two parameters to one global (F16): the model gives the code's buffered update and
                 # the accumulating one; the implementation must be one of them (the oracle says which is right)
                 return fit_rows_agree(case, 0, na, ja, parts[1]) or fit_rows_agree(case, 0, na, ja, parts[2])
             return fit_rows_agree(case, i, na, ja, jb)
@@ -1864,7 +1864,7 @@ def extra_coverage(results):
 
 
 RULE = (
-    "corpus (F9 inputs) + small scope (every built-in model on a grid of 7 abscissas x parameter corners: L_p, S_t "
+    "corpus (F16 inputs) + small scope (every built-in model on a grid of 7 abscissas x parameter corners: L_p, S_t "
     "x{0.5,1,1.5}, kT x{0.92,1,1.3}, L_c in {0.3,2.7,16,30}; the twistable model additionally exactly ON its regime "
     "boundary f == F_c, one ulp and 1e-9 to either side; every pairwise sum, the offset of every model, the inverse of "
     "every distance model, efjc_force and twlc_force alone and in sums, each inverted model at the default kT and away "
@@ -1898,5 +1898,5 @@ ASSUMPTIONS = [
     "cubic models: the theorems are about any differentiable branch of simple roots (P'(y) != 0) with the implicit-"
     "function root derivatives; that the Cardano/trigonometric chain rule of the code equals them off the regularised "
     "band is tied by the c13.jac correspondence and the oracle, not proved (DESIGN ext item)",
-    "parameter names of one model / one data set target are distinct in the routing theorems (F9 is the case where they are not)",
+    "parameter names of one model / one data set target are distinct in the routing theorems (F16 is the case where they are not)",
 ]
